@@ -78,9 +78,19 @@ func deeper(q map[string]int) map[string]int {
 // which owns "each reference means its own definition", and C03, which owns the type facet).
 func collidingNamesUnit(only string) Unit {
 	return Unit{Name: "colliding-definition-names", Harness: "pkg/generator:HarnessC10Names", Layer: "L3", Only: only,
-		Desc:   "three (thorough: four) definitions whose names normalise to ONE Go identifier (line-ref, lineRef, line_ref, LineRef), each integer, string or boolean in every combination (equal schemas may share a declaration, different ones get suffixed names), one property per definition: the emitted root type accepts a symbolic document iff every member has the type of ITS definition",
-		Bounds: "3 names x 3 kinds (27 assignments) quick, 4 names (81) thorough; members absent/null/any JSON value",
+		Desc:   "three (thorough: four) definitions whose names normalise to ONE Go identifier (line-ref, lineRef, line_ref, LineRef), each integer, string, boolean or one of two string enums differing in one member, in every combination (equal schemas may share a declaration, different ones get suffixed names), one property per definition: the emitted root type accepts a symbolic document iff every member has the type of ITS definition",
+		Bounds: "3 names x 5 kinds (125 assignments) quick, 4 names (625) thorough; members absent/null/any JSON value",
 		Quick:  map[string]int{"GRID": 2, "GRIDMAG": 36, "NAMES": 3}, Thor: map[string]int{"GRID": 2, "GRIDMAG": 36, "NAMES": 4},
+		Panic:  "inconclusive"}
+}
+
+// siblingsUnit: same-named types that differ in ONE keyword (shared by C04-C10: the default is
+// C09's, each rule keyword its own property's, "one type per distinct schema" is C10's).
+func siblingsUnit(only string) Unit {
+	return Unit{Name: "same-named-sibling-types", Harness: "pkg/generator:HarnessC09Siblings", Layer: "L3", Only: only,
+		Desc:   "two object schemas of one shape that want the same Go type name (definition names normalising to one identifier; equal titles under --struct-name-from-title) and differ in exactly ONE keyword of their member: a default (integer, string, boolean; also equal defaults), minItems, minLength, minimum, required, or the enum list. The name de-duplication by schema equality (cmp.Equal with the options of pkg/cmputil, modelled as passed) must keep them apart: with the member absent each position holds its own default, and a symbolic document is accepted iff each position satisfies ITS schema",
+		Bounds: "two positions, one member each, concrete keyword pairs, document arrays <= 2",
+		Quick:  map[string]int{"GRID": 2, "GRIDMAG": 36, "N": 2},
 		Panic:  "inconclusive"}
 }
 
@@ -149,6 +159,7 @@ func init() {
 	})
 	properties["C05"].Units = append(properties["C05"].Units,
 		l3Unit("numbers", map[string]int{"KINDS": 6, "DEPTH": 0}, "C05.", "number/integer properties: 7 bound shapes x nullable x required x inline/$ref"),
+		l3Unit("numbers-with-defaults", map[string]int{"KINDS": 6, "DEPTH": 0, "DEFAULTS": 1, "NONULL": 1, "NUMSHAPES": 4}, "C05.", "number/integer properties with a default that satisfies their own bounds: absent or null optional values are never bound-checked"),
 		l3Unit("numbers-in-arrays-and-objects", map[string]int{"KINDS": 48, "DEPTH": 1, "ITEMKINDS": 6, "NUMSHAPES": 4}, "C05.", "numbers as array items and as members of a nested object"),
 		l3UnitT("integers/min-sized", map[string]int{"KINDS": 4, "DEPTH": 0, "MINSIZED": 1, "NUMSHAPEMASK": 40, "REF": 0}, map[string]int{"KINDS": 4, "DEPTH": 0, "MINSIZED": 1}, "C05.", "integer properties with --min-sized-ints on and off (the option may narrow the Go type but the emitted bounds must still denote the stated interval)"),
 		l3UnitT("multiple-of", map[string]int{"KINDS": 6, "DEPTH": 0, "NUMSHAPES": 2, "MULT": 6}, map[string]int{"KINDS": 6, "DEPTH": 0, "NUMSHAPES": 4, "MULT": 6}, "C05.",
@@ -165,6 +176,7 @@ func init() {
 	})
 	properties["C06"].Units = append(properties["C06"].Units,
 		l3Unit("strings", map[string]int{"KINDS": 1, "DEPTH": 0}, "C06.", "string properties: 8 constraint shapes x nullable x required x inline/$ref"),
+		l3Unit("strings-with-defaults", map[string]int{"KINDS": 1, "DEPTH": 0, "DEFAULTS": 1, "NONULL": 1, "STRSHAPES": 8}, "C06.", "string properties with a default that satisfies their own constraints: an absent or null optional string is never checked (the default is, and it is valid)"),
 		l3Unit("strings-in-arrays-and-objects", map[string]int{"KINDS": 48, "DEPTH": 1, "ITEMKINDS": 1, "STRSHAPES": 3}, "C06.", "strings as array items and as members of a nested object"))
 	reg(&Property{
 		ID: "C07",
@@ -227,7 +239,7 @@ func init() {
 	reg(&Property{ID: "C03", Units: append(l3All("C03."), collidingNamesUnit("C03."),
 		l3Unit("objects-with-additional-properties", map[string]int{"KINDS": 16384, "DEPTH": 1, "E": 2, "N": 1}, "C03.",
 			"an object with a declared property AND typed additionalProperties: an undeclared member of another JSON type is rejected"),
-		l3UnitT("null-typed-positions", map[string]int{"KINDS": 8208, "DEPTH": 1, "ITEMKINDS": 8192, "ARRSHAPES": 4, "N": 1, "REF": 0}, map[string]int{"KINDS": 8208, "DEPTH": 1, "ITEMKINDS": 8192, "ARRSHAPES": 4, "N": 2}, "C03.",
+		l3UnitT("null-typed-positions", map[string]int{"KINDS": 8208, "DEPTH": 1, "ITEMKINDS": 8192, "ARRSHAPES": 4, "N": 1}, map[string]int{"KINDS": 8208, "DEPTH": 1, "ITEMKINDS": 8192, "ARRSHAPES": 4, "N": 2}, "C03.",
 			"positions of type null (a property; the items of an array with every combination of minItems/maxItems): only null is accepted there, any other JSON value is rejected"))})
 	reg(&Property{ID: "C08", Units: []Unit{
 		l3Unit("enums", map[string]int{"KINDS": 4544, "DEPTH": 0, "ENUMTEXT": 1}, "C08.", "string/integer/mixed/string-or-null enums, typed and untyped, inline and via $ref, required and optional; string members are plain words or text with format verbs, quotes, backslashes and a newline"),
@@ -254,19 +266,16 @@ func init() {
 		{Name: "defaults", Harness: "pkg/generator:HarnessC09", Layer: "L3",
 			Desc:   "whole generator on properties with a default (string, number, integer, boolean, string enum, array of strings; nullable or not; required or not; with symbolic constraints that admit the default); emitted code on a symbolic document: absent or null member accepted and the decoded field equals the default, present value kept, default literal type-checks in its field",
 			Bounds: "one property; default values are concrete representatives (they travel through litter.Sdump), constraints symbolic (exact grid), document arrays <= N",
-			Quick:  map[string]int{"GRID": 2, "GRIDMAG": 36, "N": 2, "DEFAULTS": 1, "NUMSHAPES": 4, "STRSHAPES": 3, "ARRSHAPES": 3, "ITEMKINDS": 1, "MINSIZED": 1},
+			Quick:  map[string]int{"GRID": 2, "GRIDMAG": 36, "N": 2, "DEFAULTS": 1, "NUMSHAPES": 4, "STRSHAPES": 3, "ARRSHAPES": 3, "ITEMKINDS": 1, "MINSIZED": 1, "DEFTEXT": 1},
 			Panic:  "inconclusive"},
-		{Name: "defaults/same-named-sibling-types", Harness: "pkg/generator:HarnessC09Siblings", Layer: "L3",
-			Desc:   "two object schemas of one shape that want the same Go type name (definition names normalising to one identifier; equal titles under --struct-name-from-title) and differ only in their member's default (integer, string, boolean; also equal defaults): with the member absent or null at both positions, each decoded position holds its own default (the name de-duplication by schema equality must not merge them)",
-			Bounds: "two positions, one defaulted member each, concrete default pairs; members absent or null",
-			Quick:  map[string]int{"GRID": 2, "GRIDMAG": 36},
-			Panic:  "inconclusive"},
+		siblingsUnit("C09."),
 	}})
 	reg(&Property{ID: "C17", Units: []Unit{
 		{Name: "yaml-vs-json/scalars-and-string-enums", Harness: "pkg/generator:HarnessC17", Layer: "L3",
 			Desc:   "generator with --extra-imports; both emitted methods of every type run symbolically on the same symbolic type-correct document (valid, or violating required/bound/length/pattern/string-enum rules): same verdict, equal decoded values",
 			Bounds: "shapes: string/number/integer/boolean/string-enum/string-or-null-enum properties x nullable x required x inline/$ref x with/without default; default tag set; yaml.v3 and encoding/json decode stubs agree on type-correct input (assumption, validated on replay)",
-			Quick:  map[string]int{"GRID": 2, "GRIDMAG": 36, "N": 2, "DEFAULTS": 1, "NUMSHAPES": 5, "KINDS": 4175},
+			Quick:  map[string]int{"GRID": 2, "GRIDMAG": 36, "N": 2, "DEFAULTS": 1, "NUMSHAPEMASK": 43, "KINDS": 4175},
+			Thor:   map[string]int{"GRID": 2, "GRIDMAG": 36, "N": 2, "DEFAULTS": 1, "KINDS": 4175},
 			Panic:  "inconclusive"},
 		{Name: "yaml-vs-json/arrays-and-objects", Harness: "pkg/generator:HarnessC17", Layer: "L3",
 			Desc:   "same for arrays of scalars and a nested object",
@@ -295,6 +304,9 @@ func init() {
 			Bounds: "B=2 branches (3 thorough), inline or $ref, one string member per branch",
 			Quick:  map[string]int{"REF": 1, "NESTED": 1, "B": 2}, Thor: map[string]int{"REF": 1, "NESTED": 1, "B": 3},
 			Panic:  "inconclusive"},
+		{Name: "allOf-ref-branches-across-documents", Harness: "pkg/generator:HarnessC20", Layer: "L3", Only: "C11.",
+			Desc:   "two documents in one run, each with its own definition named Base behind the same reference string inside allOf: the composed type in money.json is the conjunction of ITS document's branches (symbolic minLength, symbolic document), in three package layouts and both argument orders",
+			Bounds: "two files", Panic: "inconclusive"},
 	}, Assumptions: []string{"dario.cat/mergo v1.0.1 Merge behaves as the engine's model of deepMerge (Overwrite=false, AppendSlice, TypeList transformer, optional WithoutDereference); primitive-typed branches, oneOf/not and more than two branches are outside the bound"}})
 	reg(&Property{ID: "C18", Units: []Unit{
 		{Name: "fault-injection", Harness: "pkg/generator:HarnessC18", Layer: "L3",
@@ -394,8 +406,8 @@ func init() {
 			Quick:  map[string]int{"SHAPES": 3},
 			Panic:  "inconclusive"},
 		{Name: "cli/map-order-schedules", Harness: ".:HarnessCLIDeterminism", Layer: "L3", MapOrd: 4, SameEmits: true,
-			Desc:   "main.go's Run closure (flag variables set directly; stringSliceToStringMap, allKeys, the mapping loop, generator.New, DoFile through the real cached/multi/file loaders and the real JSON parser on a virtual file system, the Sources loop with MkdirAll/OpenFile/Write, os.Exit) executed under every iteration order of every map the CLI or the generator ranges over: seven flag/argument scenarios (no mapping; package+output under one key; two spellings of one schema id in different and in the same flag map; two schemas fully mapped; external $ref with one default file; one schema to a file and one to stdout) must each give ONE exit status, ONE stdout and ONE set of files",
-			Bounds: "seven scenarios over two small schema files; maps with <= 4 entries; cobra's flag parsing is outside (flag variables are set directly); schedules are enumerated by forking (no solver query is needed: all data is concrete)",
+			Desc:   "main.go's Run closure (flag variables set directly; stringSliceToStringMap, allKeys, the mapping loop, generator.New, DoFile through the real cached/multi/file loaders and the real JSON parser on a virtual file system, the Sources loop with MkdirAll/OpenFile/Write, os.Exit) executed under every iteration order of every map the CLI or the generator ranges over: eight flag/argument scenarios (two ids with different sets of mapping flags; no mapping; package+output under one key; two spellings of one schema id in different and in the same flag map; two schemas fully mapped; external $ref with one default file; one schema to a file and one to stdout) must each give ONE exit status, ONE stdout and ONE set of files",
+			Bounds: "eight scenarios over two small schema files; maps with <= 4 entries; cobra's flag parsing is outside (flag variables are set directly); schedules are enumerated by forking (no solver query is needed: all data is concrete)",
 			Panic:  "inconclusive"},
 	}})
 	reg(&Property{
@@ -406,6 +418,8 @@ func init() {
 				Bounds: "exact-grid mode: every bound is n/4 with |b| <= 2^36 (float64 arithmetic of the kernel -- comparisons, +-1.0, Ceil/Floor/Round -- is exact there and is encoded as integer arithmetic), x any integer with |x| <= 2^36; covers all 36 presence/kind shapes, every relative order of the bounds and every 8/16/32-bit type limit; 64-bit limits and other magnitudes: thorough tier (FP mode)",
 				Quick:  map[string]int{"GRID": 2, "GRIDMAG": 36},
 				Panic:  "violation"},
+			l3UnitT("integers/min-sized-through-emitted-code", map[string]int{"KINDS": 4, "DEPTH": 0, "MINSIZED": 1, "NUMSHAPEMASK": 40}, map[string]int{"KINDS": 4, "DEPTH": 0, "MINSIZED": 1}, "C15.",
+				"integer properties (required, optional, nullable, inline and via $ref) generated with --min-sized-ints: the emitted program accepts a symbolic document iff the value lies in the stated interval (the same reference model as without the flag: acceptance does not change)"),
 			{Name: "min-int-type/float64-semantics", Harness: "pkg/codegen:HarnessC15L1F", Layer: "L1", OnlyThorough: true,
 				Desc:   "same harness with true IEEE float64 semantics (SMT FloatingPoint 11 53): representable / sound-removal / narrowest for bounds of any magnitude below 2^64",
 				Bounds: "bounds finite, |b| < 2^64; exclusive-form bounds |b| < 2^53 (b+-1 exact in float64); x: integral float64 (every |x| <= 2^53 and all type limits 2^k); queries that time out (60 s) are reported as not covered; path budget 400",
@@ -436,6 +450,17 @@ func textKernels(only string, suffix []string) []Unit {
 }
 
 func init() {
+	for _, id := range []string{"C04", "C05", "C06", "C07", "C08", "C10"} {
+		properties[id].Units = append(properties[id].Units, siblingsUnit(id+"."))
+	}
+	properties["C08"].Units = append(properties["C08"].Units, collidingNamesUnit("C08."))
+	for _, u := range properties["C12"].Units {
+		if u.Name == "cli/map-order-schedules" {
+			u.Only = "C20."
+			u.Desc = "the CLI unit of C12 seen through C20: two schema ids with different sets of --schema-* flags (one has only an output, the other only a package and a root type): under every map order each mapping applies to its own schema only (the widget lands in its mapped file under its own root type, the gadget under its mapped root type on stdout), and all orders give the same outcome"
+			properties["C20"].Units = append(properties["C20"].Units, u)
+		}
+	}
 	properties["C02"].Units = append(properties["C02"].Units, textKernels("C02.", nil)...)
 	properties["C13"].Units = append(properties["C13"].Units, Unit{Name: "json-files-vs-yaml-files", Harness: "pkg/generator:HarnessC13Files", Layer: "L3", Only: "C13.",
 		Desc:   "the same two schemas (a root with bounds, a two-element type list, a mixed enum with null, a $ref written without extension that --resolve-extension probing resolves, an allOf branch on the same file) as JSON files and as YAML files on the virtual file system, loaded through the default loaders (extension-based parser choice, FromYAMLFile -> goccy decode -> FixMapKeys -> json.Marshal -> the JSON parser): both spellings generate, and generate byte-identical code",
